@@ -310,5 +310,92 @@ theorem run_effect (t : Tree) (need : Need) (hw : WF t) (hok : NeedOK need) :
     rw [ca q, hk]
     exact pb q hq
 
+/-! ### which paths a run can touch before the metadata goes live -/
+
+/-- a write operation (no swap, no removal) on path `q` -/
+def Op.writes (q : Path) : Op → Prop
+  | .create p _ => p = q
+  | .append p _ => p = q
+  | _ => False
+
+theorem step_untouched (t : Tree) (op : Op) (q p : Path) (h : op.writes q) (hp : p ≠ q) :
+    (step t op).pool p = t.pool p ∧ (step t op).dists = t.dists := by
+  cases op with
+  | create r tag => simp only [Op.writes] at h; subst h; simp [step, hp]
+  | append r k => simp only [Op.writes] at h; subst h; simp [step, hp]
+  | swap m => cases h
+  | remove r => cases h
+
+theorem step_keeps_names (t : Tree) (op : Op) (q p : Path) (h : op.writes q) (hp : t.pool p ≠ none) : (step t op).pool p ≠ none := by
+  cases op with
+  | create r tag =>
+    simp only [step]
+    by_cases e : p = r <;> simp [e, hp]
+  | append r k =>
+    simp only [step]
+    by_cases e : p = r
+    · subst e
+      simp only [if_true]
+      cases hq : t.pool p with
+      | none => exact absurd hq hp
+      | some f => simp
+    · simp [e, hp]
+  | swap m => cases h
+  | remove r => cases h
+
+/-- operations that only write, each on a path of the set `T` -/
+theorem exec_writes_only (ops : List Op) (T : Path → Prop) (t : Tree) (h : ∀ op ∈ ops, ∃ q, T q ∧ op.writes q) :
+    (exec ops t).dists = t.dists ∧ (∀ p, ¬ T p → (exec ops t).pool p = t.pool p) ∧
+    (∀ p, t.pool p ≠ none → (exec ops t).pool p ≠ none) := by
+  induction ops generalizing t with
+  | nil => exact ⟨rfl, fun _ _ => rfl, fun _ h => h⟩
+  | cons o os ih =>
+    obtain ⟨q, hT, hw⟩ := h o List.mem_cons_self
+    obtain ⟨a, b, c⟩ := ih (step t o) (fun op hop => h op (List.mem_cons_of_mem _ hop))
+    rw [exec_cons]
+    refine ⟨?_, ?_, ?_⟩
+    · rw [a]
+      by_cases e : q = q
+      · cases o with
+        | create r tag => rfl
+        | append r k => rfl
+        | swap m => cases hw
+        | remove r => cases hw
+      · exact absurd rfl e
+    · intro p hp
+      rw [b p hp]
+      exact (step_untouched t o q p hw (fun e => hp (e ▸ hT))).1
+    · intro p hp
+      exact c p (step_keeps_names t o q p hw hp)
+
+theorem writeOps_writes (n : PoolNeed) (op : Op) (h : op ∈ writeOps n) : op.writes n.path := by
+  unfold writeOps at h
+  rcases List.mem_cons.mp h with rfl | h
+  · rfl
+  · obtain ⟨k, _, rfl⟩ := List.mem_map.mp h
+    rfl
+
+/-- every operation of the pool stage writes a needed file that was not there with its declared size when the run began -/
+theorem poolOps_absent (ns : List PoolNeed) (t : Tree) (hd : ns.Pairwise (fun a b => a.path ≠ b.path))
+    (hs : ∀ n ∈ ns, n.chunks.sum = n.size) (op : Op) (h : op ∈ poolOps t ns) :
+    ∃ n ∈ ns, op ∈ writeOps n ∧ present t n = false := by
+  induction ns generalizing t with
+  | nil => cases h
+  | cons n ns ih =>
+    have hd' := List.pairwise_cons.mp hd
+    simp only [poolOps, List.mem_append] at h
+    rcases h with h | h
+    · unfold fileOps at h
+      by_cases hp : present t n = true
+      · rw [if_pos hp] at h; cases h
+      · rw [if_neg hp] at h
+        exact ⟨n, List.mem_cons_self, h, by simpa using hp⟩
+    · obtain ⟨m, hm, ho, hpm⟩ := ih _ hd'.2 (fun k hk => hs k (List.mem_cons_of_mem _ hk)) h
+      refine ⟨m, List.mem_cons_of_mem _ hm, ho, ?_⟩
+      obtain ⟨_, hoth, _, _, _⟩ := file_effect n t (hs n List.mem_cons_self)
+      unfold present at hpm ⊢
+      rw [hoth m.path (fun e => hd'.1 m hm e.symm)] at hpm
+      exact hpm
+
 end Mirror
 end AptMirror
